@@ -105,15 +105,28 @@ class Facts:
                 missing = [k for k in sorted(known_c) if k not in cur]
                 fresh = [k for k in sorted(cur) if k not in known_c]
                 self.renamed = {}
+                sigs = {canon_generics(k): v for k, v in kd.get("sigs", {}).items()}
+                taken = set()
                 for m in missing:
                     parent = m.rsplit("::", 1)[0]
-                    cands = [f for f in fresh if f.rsplit("::", 1)[0] == parent and len(cur[f]) == 1]
+                    cands = [f for f in fresh if f.rsplit("::", 1)[0] == parent and len(cur[f]) == 1 and f not in taken]
+                    if len(cands) > 1 and m in sigs:
+                        # several renames in one impl / module: the one with the same signature
+                        same = [f for f in cands if "%s -> %s" % (", ".join(str(t) for t in cur[f][0].sig_in), cur[f][0].ret) == sigs[m]]
+                        if len(same) > 1:
+                            # ... and, among those, the one whose name contains the old name (or is contained in it)
+                            old = m.rsplit("::", 1)[1]
+                            near = [f for f in same if old in f.rsplit("::", 1)[1] or f.rsplit("::", 1)[1] in old]
+                            same = near if len(near) == 1 else same
+                        cands = same
                     if len(cands) == 1:
                         self.renamed[m] = cur[cands[0]][0]
+                        taken.add(cands[0])
                 known = known | set(b.path for b in self.renamed.values())
                 kc = set(canon_generics(c) for c in kd.get("consts", []))
                 # constants the reference tree does not have (introduced by an edit): expanded wherever they are used
                 self.new_consts = {b.path: b for b in self.bodies if b.dk in ("Const", "AssocConst") and canon_generics(b.path) not in kc}
+                self.ctor_sites = astnorm.inline_delegating_constructors(self)
                 try:
                     self.inlined_sites = astnorm.inline_new_helpers(self, known)
                     if self.inlined_sites:
@@ -639,3 +652,27 @@ def call_args(n):
     if n.get("k") == "Call":
         return n["args"]
     return []
+
+
+def for_loops(body):
+    """[(pattern, iterated expression, loop body)] of the `for` loops of a body (from their desugaring)"""
+    out = []
+    for x in walk(body):
+        if x.get("k") == "Match" and x.get("src") == "ForLoopDesugar":
+            scrut = x["e"]
+            it = scrut["args"][0] if scrut.get("k") == "Call" and scrut.get("args") else scrut
+            loop = x["arms"][0]["body"]
+            while loop.get("k") == "Block" and "expr" in loop and not loop["stmts"]:
+                loop = loop["expr"]
+            if loop.get("k") != "Loop":
+                continue
+            lb = loop["body"]
+            inner = lb.get("expr") or (lb["stmts"][0] if lb.get("stmts") else None)
+            if inner is None or inner.get("k") != "Match":
+                continue
+            for a in inner["arms"]:
+                if a["pat"].get("k") == "PTupleStruct" and a["pat"].get("ps"):
+                    out.append((a["pat"]["ps"][0], it, a["body"]))
+                elif a["pat"].get("k") == "PStruct" and a["pat"].get("fields"):
+                    out.append((a["pat"]["fields"][0]["p"], it, a["body"]))
+    return out
